@@ -444,3 +444,191 @@ pub fn run_gent_check(ctx: &Ctx, id: &str) -> i32 {
     eprintln!("INFRA: generated-code binary was restarted 40 times");
     2
 }
+
+
+// ---------------------------------------------------------------------------------------------
+// protobuf pipeline
+
+pub struct PreparedProto {
+    pub excluded: BTreeMap<String, String>,
+}
+
+pub fn prepare_proto(ctx: &Ctx, bins: &[&str]) -> Result<PreparedProto, String> {
+    let corpus = vcore::corpus::proto_corpus(ctx.seed, ctx.tier);
+    let dir = work_dir().join("gen_proto");
+    let _ = std::fs::create_dir_all(dir.join("out"));
+    for d in &corpus.docs {
+        for (name, text) in d.doc.print_files() {
+            write_if_changed(&dir.join("idl").join(&d.key).join(name), &text);
+        }
+    }
+    let cache_path = dir.join("cache.json");
+    let cache: BTreeMap<String, (String, Option<String>)> = std::fs::read_to_string(&cache_path).ok().and_then(|t| serde_json::from_str(&t).ok()).unwrap_or_default();
+    let vb_sig = file_sig(&vbuild_exe());
+    let rlib_sig = pilota_rlib().map(|p| file_sig(&p)).unwrap_or_default();
+    let results: std::sync::Mutex<BTreeMap<String, (String, Option<String>)>> = Default::default();
+    let next = std::sync::atomic::AtomicUsize::new(0);
+    std::thread::scope(|s| {
+        for _ in 0..16 {
+            s.spawn(|| loop {
+                let i = next.fetch_add(1, std::sync::atomic::Ordering::SeqCst);
+                if i >= corpus.docs.len() {
+                    break;
+                }
+                let d = &corpus.docs[i];
+                let out = dir.join("out").join(format!("{}.rs", d.key));
+                let idl_text: String = d.doc.print_files().into_iter().map(|(n, t)| format!("{}\n{}\n", n, t)).collect();
+                let sig = format!("{:x}|{}|{}|{}", hash_str(&idl_text), vb_sig, rlib_sig, file_sig(&out));
+                if let Some((s0, r)) = cache.get(&d.key) {
+                    if *s0 == sig && out.exists() {
+                        results.lock().unwrap().insert(d.key.clone(), (sig, r.clone()));
+                        continue;
+                    }
+                }
+                let idl_dir = dir.join("idl").join(&d.key);
+                let main = idl_dir.join(format!("{}.proto", d.doc.files[0].stem));
+                let args: Vec<String> = vec!["proto".into(), out.to_string_lossy().into(), main.to_string_lossy().into(), "--include-dir".into(), idl_dir.to_string_lossy().into()];
+                let b = run_vbuild(&args, None, 120);
+                let reason = if !b.ok {
+                    Some(format!("pilota-build failed ({}): {}", b.status, vcore::evidence::truncate(&b.stderr, 600)))
+                } else {
+                    match typecheck(&out, &dir.join("tc"), "2021") {
+                        Ok(()) => None,
+                        Err(e) => Some(format!("generated code does not type-check: {}", vcore::evidence::truncate(&e, 900))),
+                    }
+                };
+                let sig = format!("{:x}|{}|{}|{}", hash_str(&idl_text), vb_sig, rlib_sig, file_sig(&out));
+                results.lock().unwrap().insert(d.key.clone(), (sig, reason));
+            });
+        }
+    });
+    let results = results.into_inner().unwrap();
+    let _ = std::fs::write(&cache_path, serde_json::to_string(&results).unwrap());
+    let mut excluded = BTreeMap::new();
+    let mut all = String::from("// generated by vcheck (genpipe); do not edit\n");
+    let mut entries = String::new();
+    let mut mismatches = vec![];
+    for d in &corpus.docs {
+        if let Some((_, Some(reason))) = results.get(&d.key) {
+            excluded.insert(d.key.clone(), reason.clone());
+            continue;
+        }
+        let out = dir.join("out").join(format!("{}.rs", d.key));
+        let text = std::fs::read_to_string(&out).unwrap_or_default().replace("impl ::pilota::prost::Message for ", "impl ::pilota::thrift::Message for ");
+        let tmp = dir.join("tc").join(format!("{}-scan.rs", d.key));
+        let _ = std::fs::create_dir_all(tmp.parent().unwrap());
+        let _ = std::fs::write(&tmp, text);
+        let found = scan_message_impls(&tmp);
+        let predicted: Vec<String> = d.doc.all_messages().iter().map(|r| d.doc.rust_path(r)).collect();
+        for p in &predicted {
+            if !found.contains(p) {
+                mismatches.push(format!("{}: predicted message {} has no Message impl in the output (found: {:?})", d.key, p, found));
+            }
+        }
+        all.push_str(&format!("include!({:?});\n", out.to_string_lossy()));
+        for p in &predicted {
+            if found.contains(p) {
+                entries.push_str(&format!("        vrt::pgen::pentry::<{}::{}>({:?}, {:?}),\n", d.key, p, d.key, p));
+            }
+        }
+    }
+    if !mismatches.is_empty() {
+        return Err(format!("model / output disagreement on the set of generated messages (harness error):\n{}", mismatches.join("\n")));
+    }
+    all.push_str("pub fn ptable() -> Vec<vrt::pgen::PEntry> {\n    vec![\n");
+    all.push_str(&entries);
+    all.push_str("    ]\n}\n");
+    write_if_changed(&dir.join("all.rs"), &all);
+    for bin in bins {
+        let log = work_dir().join(format!("build-{}.log", bin));
+        let o = Command::new("cargo")
+            .args(["build", "--offline", "-p", bin])
+            .current_dir(verif_root().join("harness"))
+            .env("CARGO_NET_OFFLINE", "true")
+            .env("VERIF_PGEN_DIR", &dir)
+            .output()
+            .map_err(|e| format!("cannot run cargo: {}", e))?;
+        let _ = std::fs::write(&log, [o.stdout.clone(), o.stderr.clone()].concat());
+        if !o.status.success() {
+            let e = String::from_utf8_lossy(&o.stderr);
+            let errs: Vec<&str> = e.lines().filter(|l| l.starts_with("error") || l.contains("-->")).take(40).collect();
+            return Err(format!("building {} failed (see {}):\n{}", bin, log.display(), errs.join("\n")));
+        }
+    }
+    Ok(PreparedProto { excluded })
+}
+
+/// Runs check `id` in each of the given generated-code binaries ("gent", "gentp", "gentpd") in
+/// partial-evidence mode and merges everything into one evidence file.
+pub fn run_multi(ctx: &Ctx, id: &str, bins: &[&str]) -> i32 {
+    // replays go to the binary that produced them
+    if let Some(rp) = &ctx.replay {
+        let sub = rp["sub"].as_str().unwrap_or("");
+        let bin = if sub.starts_with("proto") { bins.iter().find(|b| b.starts_with("gentp")).copied().unwrap_or("gentp") } else { "gent" };
+        return run_bin(ctx, id, bin, false);
+    }
+    let rec = std::cell::RefCell::new(vcore::evidence::Recorder::new(id, ctx.tier, ctx.seed));
+    rec.borrow_mut().level = if ["C09", "C10", "C19"].contains(&id) { "fault_enumeration" } else { "exploration" };
+    let mut code = 0;
+    for bin in bins {
+        let part = vcore::evidence::Recorder::partial_path(id);
+        let _ = std::fs::remove_file(&part);
+        let c = run_bin(ctx, id, bin, true);
+        if let Some(v) = std::fs::read_to_string(&part).ok().and_then(|t| serde_json::from_str::<serde_json::Value>(&t).ok()) {
+            rec.borrow_mut().merge_partial(&v);
+            rec.borrow_mut().class(&format!("part run in {}", bin));
+        } else if c != 2 {
+            eprintln!("INFRA: {} left no evidence for {}", bin, id);
+            code = combine(code, 2);
+            continue;
+        }
+        code = combine(code, c);
+    }
+    if rec.borrow().rule.starts_with(" || ") {
+        let r = rec.borrow().rule[4..].to_string();
+        rec.borrow_mut().rule = r;
+    }
+    let own = rec.borrow().finish(&ctx.findings);
+    combine(own, code)
+}
+
+fn run_bin(ctx: &Ctx, id: &str, bin: &str, partial: bool) -> i32 {
+    if partial {
+        std::env::set_var("VERIF_PARTIAL", "1");
+    }
+    let code = if bin == "gent" {
+        run_gent_check(ctx, id)
+    } else {
+        match prepare_proto(ctx, &[bin]) {
+            Err(e) => {
+                eprintln!("INFRA: {}", e);
+                2
+            }
+            Ok(p) => {
+                for (k, r) in &p.excluded {
+                    eprintln!("note: protobuf document {} excluded from value-level checks: {}", k, vcore::evidence::truncate(r, 300));
+                }
+                let mut cmd = Command::new(target_dir().join(bin));
+                cmd.arg(id).arg("--tier").arg(ctx.tier.name());
+                if let Some(rp) = &ctx.replay_path {
+                    cmd.arg("--replay").arg(rp);
+                }
+                cmd.env("VERIF_SEED", (ctx.seed as i64).to_string()).env("VERIF_ROOT", verif_root());
+                match cmd.status() {
+                    Ok(s) => s.code().unwrap_or_else(|| {
+                        eprintln!("INFRA: {} died: {:?}", bin, s);
+                        2
+                    }),
+                    Err(e) => {
+                        eprintln!("INFRA: cannot run {}: {}", bin, e);
+                        2
+                    }
+                }
+            }
+        }
+    };
+    if partial {
+        std::env::remove_var("VERIF_PARTIAL");
+    }
+    code
+}
